@@ -111,7 +111,23 @@ func c13ClientConfig(variant string) *dtlsConfig {
 }
 
 // template ClientHello: what a genuine pion client sends first under this variant.
+// c13Templates: one first ClientHello per variant for the whole run, so that the "stale" cookie was
+// issued by an earlier connection for byte-identical ClientHello bytes (a cookie must not be
+// transferable between connections even then).
+var c13Templates = map[string]*handshake.MessageClientHello{}
+
 func c13Template(t *testing.T, variant string) *handshake.MessageClientHello {
+	t.Helper()
+	if m, ok := c13Templates[variant]; ok {
+		return m
+	}
+	m := c13NewTemplate(t, variant)
+	c13Templates[variant] = m
+
+	return m
+}
+
+func c13NewTemplate(t *testing.T, variant string) *handshake.MessageClientHello {
 	t.Helper()
 	n := newVNet()
 	cep := n.endpoint("client")
